@@ -67,10 +67,13 @@ CLAIMS = {
    text="Sequential contracts on the per-account list: txSortedMap.Put stores the transaction under its nonce, always drops the sorted cache and grows the map by one exactly for a new nonce; txSortedMap.Remove deletes exactly the nonce, reports presence and drops the cache when the content changed; txList.Add accepts a same-nonce replacement only if the new price is strictly higher and reaches old*(100+bump)/100, returns the replaced transaction, leaves the list untouched on refusal and raises costcap/gascap to cover an accepted transaction.",
    note="The quantifier over interleavings is NOT decided: these are per-call contracts of code that the pool runs under pool.mu; locking discipline, deadlock freedom, index agreement between pending/queue/all/priced and nonce contiguity are not under contract. Assumed: transaction payloads are immutable (trusted TxData.nonce/gasPrice/gas/value interface contracts), container/heap only touches the index heap.",
    design="4 (C19)", technique="contract-based deductive verification: functional postconditions over map models and big.Int models, VCs from go/ssa, z3/cvc5"),
+ "C10": dict(
+   text="Undo-log content for coinbase lockups: when vm.AddNewLock overwrites a stored lockup record, the undo data it returns (the only input of the reorg rollback for that key) records the delegate that was stored, not the delegate of the update, and no undo data is returned when nothing was overwritten; discharged for every exit of the real function. A defect of exactly this kind was found by this obligation and repaired (fixed: afeeeaad).",
+   note="This is one obligation of the property, not the property: the rollback loop of HeaderChain.SetCurrentHeader (one 250-line function with nested loops over database batches), the created/spent UTXO logs, address indexes, canonical-hash and head updates, and equality with a node that only saw the winning branch are NOT under contract (a relational invariant over key-string maps per loop did not discharge). Assumed: WriteCoinbaseLockupToSlice serialises the delegate it is given (trusted), the delegate returned by ReadCoinbaseLockup is a function of its arguments (assumed clause).",
+   design="4 (C10)", technique="contract-based deductive verification: postcondition on the undo record with uninterpreted naming of the stored value, VCs from go/ssa, z3/cvc5"),
 }
 
 NA = {
- "C10": "the rollback is one 250-line function (HeaderChain.SetCurrentHeader) with nested loops over database batches; a contract that decides it needs a relational invariant (state after undo = state before apply) over key-string maps for every loop, which did not discharge; only UtxoKey/ReverseUtxoKey round trip (claimed under C14) touches it (DESIGN 4, C10)",
  "C02": "value conservation needs the sum over all accounts as ghost state threaded through the interpreter loop and every opcode; the call-kind frame contracts (claimed under C12) and the transfer contract are the reachable part, the sum invariant itself is not discharged (DESIGN 4, C02)",
  "C11": "crash points quantify over prefixes of the DB write sequence plus a restart; no per-call contract (pre/post/invariant/lemma) expresses it (DESIGN 4, C11)",
  "C18": "needs an inductive representation invariant over a recursive interface-typed node graph plus hash injectivity; not within reach of a self-written VC generator (DESIGN 4, C18)",
